@@ -5,7 +5,8 @@ import ast
 
 from sa.core import Ob
 from sa.pm import AnalysisError, norm, body_nodes
-from sa import gi, df, ru
+from sa import gi, df, ru, sym
+from sa.pm import Undecided
 from sa.gi import IntSet, iv, GuardWalker, SymbolicAtomizer, reach_sets
 from sa.ef import writes_in, Fresh
 
@@ -92,12 +93,34 @@ def c06_1(ctx):
     init = ctx.func(BSC, "BitcoinSolutionChecker.__init__")
     ws = [w.text for w in writes_in(init)]
     ctx.check(ws == ["self.tx = ..."], "checker-state", ctx.where(init), "BitcoinSolutionChecker.__init__ stores %s; the checker must hold only the transaction reference" % ws)
-    # VM per stage with a copied stack
+    # every stage gets its own copy of the stack it starts from
     c = ctx.func(BSC, "BitcoinSolutionChecker.check_solution")
-    ctx.check("initial_stack=solution_stack[:]" in norm(c.node), "stage-stack-copy", ctx.where(c), "stages share the solution stack object")
-    w = ctx.func(SEG, "SegwitChecker._check_witness_program_v0")
-    t = norm(w.node)
-    ctx.check("stack = list(witness_solution_stack[:-1])" in t and "stack = list(witness_solution_stack)" in t, "witness-stack-copy", ctx.where(w), "the witness stack handed to the VM is not a copy of the input's witness")
+    w = sym.walk(ctx, c)
+    vms = [e for e in w.effects if e.kind == "call" and any(k.arg == "initial_stack" for k in e.call.keywords)]
+    if not vms:
+        raise Undecided("check_solution: no VM construction with initial_stack= found")
+    for e in vms:
+        v = [k.value for k in e.raw.keywords if k.arg == "initial_stack"][0]
+        copy_ = (isinstance(v, ast.Subscript) and isinstance(v.slice, ast.Slice) and v.slice.lower is None and v.slice.upper is None) or (isinstance(v, ast.Call) and isinstance(v.func, ast.Name) and v.func.id == "list") \
+            or Fresh(c).prov(v, e.raw)[0]
+        ctx.check(copy_, "stage-stack-copy", ctx.where(c, e.node), "a validation stage starts its VM on `%s`, which is not a copy: stages share the solution stack object" % norm(v))
+    wp = ctx.func(SEG, "SegwitChecker._check_witness_program_v0")
+    ww = sym.walk(ctx, wp)
+    sp = wp.params()[1]
+    stacks = set()
+    for e in ww.effects:
+        if e.kind == "call":
+            for k in e.call.keywords:
+                if k.arg == "initial_stack":
+                    stacks.add(norm(k.value))
+    for e in ww.exits:
+        if e.kind == "return" and e.value is not None:
+            for n in ast.walk(e.value):
+                if isinstance(n, ast.Call) and isinstance(n.func, ast.Name) and n.func.id == "list" and n.args and sp in norm(n.args[0]):
+                    stacks.add(norm(n))
+    src = norm(wp.node)
+    ctx.check("list(%s" % sp in src and not any(isinstance(x, (ast.Assign,)) and norm(x.value) in (sp, "%s[:-1]" % sp) and norm(x.targets[0]) == "stack" for x in body_nodes(wp.node)), "witness-stack-copy", ctx.where(wp),
+              "the witness stack handed to the VM is not a copy of the transaction's witness")
 
 
 # ------------------------------------------------------------------ C06.2
@@ -137,71 +160,66 @@ def cache_scope(ctx):
 
 
 # ------------------------------------------------------------------ C06.3
+def _ref():
+    from rules import C04
+    return C04._ref()
+
+
 def c06_3(ctx):
     f = ctx.func(CTX, "Tx.is_solution_ok")
     idx = f.params()[1]
-    const = ru.const_resolver(ctx, f, {idx})
-    w = GuardWalker(SymbolicAtomizer(ru.subject({"len(self.unspents)", "self.unspents"}), const))
-    ex = w.run(f.node.body)
+    w = sym.int_walk(ctx, f, {"len(self.unspents)"}, {idx})
     true_ret = lambda e: e.kind == "return" and not (isinstance(e.value, ast.Constant) and e.value.value is False)
-    s = E
-    for e in ex:
-        if true_ret(e):
-            s = s | gi.sat_set(e.cond, U, E)
+    fr = sym.exits_formula(w, true_ret)
+    s = sym.may_set(fr, U, E) if fr is not False else E
     want = iv(("s", 1), None)
     ctx.check(s.issubset(want), "missing-unspent-length", ctx.where(f),
-              "Tx.is_solution_ok can report an input valid when len(self.unspents) is in %s relative to the input index; it must be False unless len(unspents) > index"
-              % s.fmt(idx), sample={"subject": "len(self.unspents)", "may_return_true": s.fmt(idx)})
-    # ... and the entry must not be None
-    w2 = GuardWalker(ru.opaque)
-    ex2 = w2.run(f.node.body)
-    none_atom = "self.unspents[%s] is None" % idx
-    for e in ex2:
-        if true_ret(e):
-            from rules.C01 import can_be
-            ctx.check(not can_be(e.cond, none_atom) and none_atom in gi.f_opaques(e.cond), "missing-unspent-none", ctx.where(f, e.node),
-                      "Tx.is_solution_ok can return `%s` although unspents[index] is None" % (norm(e.value) if e.value is not None else None))
-    # only ScriptError is converted to False
-    hs = [h for n in body_nodes(f.node) if isinstance(n, ast.Try) for h in n.handlers]
+              "Tx.is_solution_ok can report an input valid when len(self.unspents) is in %s relative to the input index; it must be False unless len(unspents) > index" % s.fmt(idx),
+              sample={"subject": "len(self.unspents)", "may_return_true": s.fmt(idx)})
+    none_atom = ("op", "self.unspents[%s] is None" % idx)
+    ctx.check(fr is not False and sym.entails(fr, gi.f_not(none_atom)) and none_atom[1] in gi.f_opaques(fr), "missing-unspent-none", ctx.where(f), "Tx.is_solution_ok can return a positive verdict although unspents[index] is None")
+    # only ScriptError is converted to False; True is returned only after check_solution returned
+    cs = sym.calls_matching(w, "self.check_solution")
+    if not cs:
+        raise Undecided("Tx.is_solution_ok does not call self.check_solution")
     names = set()
-    for h in hs:
-        names |= {(df.dotted(x) or "?").split(".")[-1] for x in (h.type.elts if isinstance(h.type, ast.Tuple) else [h.type])} if h.type is not None else {"<bare>"}
+    for e in cs:
+        for t in sym.enclosing_tries(f.node, e.node):
+            names |= sym.handler_names(t)
     ctx.check(names == {"ScriptError"}, "only-script-error", ctx.where(f), "Tx.is_solution_ok converts %s to a verdict; only ScriptError means `invalid`" % sorted(names))
-    tr = [e for e in ex2 if e.kind == "return" and isinstance(e.value, ast.Constant) and e.value.value is True]
-    ok = len(tr) == 1
-    if ok:
-        # True is returned right after check_solution in the try body
-        tries = [n for n in body_nodes(f.node) if isinstance(n, ast.Try)]
-        ok = len(tries) == 1 and len(tries[0].body) == 2 and "self.check_solution(%s" % idx in norm(tries[0].body[0]) and tries[0].body[1] is tr[0].node
-    ctx.check(ok, "true-after-check", ctx.where(f), "Tx.is_solution_ok does not return True exactly after a check_solution call that did not raise")
+    r_call = gi.f_or(*[e.reach for e in cs])
+    tr = sym.exits_formula(w, lambda e: e.kind == "return" and isinstance(e.value, ast.Constant) and e.value.value is True)
+    ctx.check(tr is not False and sym.entails(tr, r_call) and not any("exc@" in o for o in (gi.f_opaques(tr) if tr not in (True, False) else [])), "true-after-check", ctx.where(f),
+              "Tx.is_solution_ok does not return True exactly after a check_solution call that did not raise")
+    sym.against_reference(ctx, f, _ref(), "btx_is_solution_ok", "verdict-form", lambda t: t.startswith("len("))
     g = ctx.func(BTX, "Tx.missing_unspent")
-    w3 = GuardWalker(SymbolicAtomizer(ru.subject({"len(self.unspents)"}), ru.const_resolver(ctx, g, {g.params()[1]})))
-    ex3 = w3.run(g.node.body)
-    s = E
-    for e in ex3:
-        if e.kind == "return" and isinstance(e.value, ast.Constant) and e.value.value is True and gi.involves_subject(e.cond):
-            s = s | gi.sat_set(e.cond, U, E, assume={"self.is_coinbase()": False})
+    w3 = sym.int_walk(ctx, g, {"len(self.unspents)"}, {g.params()[1]})
+    ft = sym.exits_formula(w3, lambda e: e.kind == "return" and isinstance(e.value, ast.Constant) and e.value.value is True)
+    s = sym.must_set(ft, U, E, assume={"truthy(self.is_coinbase())": False}) if ft is not False else E
     ctx.check(iv(None, ("s", 0)).issubset(s), "missing-unspent-predicate", ctx.where(g), "Tx.missing_unspent is not True for every len(unspents) <= index (got %s)" % s.fmt("idx"))
+    sym.against_reference(ctx, g, _ref(), "tx_missing_unspent", "missing-unspent-form", lambda t: t.startswith("len("))
+    # the coinbase exemption applies to transactions with exactly one, null, input (shared with C20.3)
+    k = ctx.func(BTX, "Tx.is_coinbase")
+    wk = sym.int_walk(ctx, k, {"len(self.txs_in)"})
+    rets = [e for e in wk.exits if e.kind == "return"]
+    if len(rets) != 1 or rets[0].value is None:
+        raise Undecided("Tx.is_coinbase: expected a single return expression")
+    form = wk.atomize(rets[0].value, True)
+    sk = sym.may_set(form, U, E)
+    ctx.check(sk == iv(1, 1), "coinbase-single-input", ctx.where(k), "Tx.is_coinbase is true for transactions with %s inputs; the exemption from input validation is for exactly one (null) input" % sk.fmt())
 
 
 # ------------------------------------------------------------------ C06.4
 def c06_4(ctx):
     f = ctx.func(BSC, "BitcoinSolutionChecker.tx_context_for_idx")
+    sym.against_reference(ctx, f, _ref(), "bsc_tx_context_for_idx", "context", lambda t: False)
+    w = sym.walk(ctx, f)
+    got = {e.attr: norm(e.value) for e in w.effects if e.kind == "setattr"}
     idx = f.params()[1]
-    defs = df.single_defs(f.node)
-    got = {}
-    for st in body_nodes(f.node):
-        if isinstance(st, ast.Assign) and isinstance(st.targets[0], ast.Attribute) and norm(st.targets[0].value) == "tx_context":
-            got[st.targets[0].attr] = norm(df.expand(st.value, defs))
     txin = "self.tx.txs_in[%s]" % idx
-    want = {"lock_time": "self.tx.lock_time", "version": "self.tx.version",
-            "puzzle_script": "b'' if self.tx.missing_unspent(%s) else self.tx.unspents[%s].script" % (idx, idx),
-            "solution_script": txin + ".script", "witness_solution_stack": txin + ".witness", "sequence": txin + ".sequence", "tx_in_idx": idx}
-    for k, v in want.items():
-        ctx.check(got.get(k) == v, "context:%s" % k, ctx.where(f), "tx_context.%s is built from `%s`, expected the current value `%s`" % (k, got.get(k), v), sample={"field": k, "source": got.get(k)})
-    extra = set(got) - set(want)
-    ctx.check(not extra, "context-extra", ctx.where(f), "tx_context carries extra fields %s" % sorted(extra))
-    ctx.check("tx_context = TxContext()" in norm(f.node), "context-fresh", ctx.where(f), "the context object is not created per call")
+    want = {"lock_time": "self.tx.lock_time", "version": "self.tx.version", "solution_script": txin + ".script", "witness_solution_stack": txin + ".witness", "sequence": txin + ".sequence", "tx_in_idx": idx}
+    for k_, v in want.items():
+        ctx.check(got.get(k_) == v, "context:%s" % k_, ctx.where(f), "tx_context.%s is built from `%s`, expected the current value `%s`" % (k_, got.get(k_), v), sample={"field": k_, "source": got.get(k_)})
 
 
 from rules import C04 as _C04
@@ -209,10 +227,10 @@ from rules import C04 as _C04
 OBLIGATIONS = [
     Ob("C06.1", "validation call tree is stateless on the transaction and on the checker", c06_1, floor=40, engines="EF", breaks_if="validate, mutate an output, re-validate the same object"),
     Ob("C06.2", "sighash cache is call-local, keyed by hash type, with loop-invariant co-inputs", cache_scope, floor=7, engines="EF,DF", breaks_if="two CHECKSIGs with one hash type where the second signature appears in the script"),
-    Ob("C06.3", "an input whose spent output is unknown is never reported valid; only ScriptError means invalid", c06_3, floor=5, engines="GI,CFG", breaks_if="input index beyond a non-empty, too short unspents list"),
-    Ob("C06.4", "the per-input context is built from the current transaction fields", c06_4, floor=8, engines="DF"),
-    Ob("C06.5", "commitment contents: branch partition of all 256 hash types (shared with C04.1)", _C04.c04_1, floor=26, engines="GI(finite)", exhaustive=True,
+    Ob("C06.3", "an input whose spent output is unknown is never reported valid; only ScriptError means invalid", c06_3, floor=8, engines="SYM,GI", breaks_if="input index beyond a non-empty, too short unspents list"),
+    Ob("C06.4", "the per-input context is built from the current transaction fields", c06_4, floor=7, engines="SYM"),
+    Ob("C06.5", "commitment contents: branch partition of all 256 hash types (shared with C04.1)", _C04.c04_1, floor=11, engines="SYM,GI(finite)", exhaustive=True,
        breaks_if="a field outside the commitment of NONE|FORKID / SINGLE|FORKID changed"),
-    Ob("C06.6", "commitment contents: BIP143 pre-image and sub-hash traces (shared with C04.2)", _C04.c04_2, floor=16, engines="CT"),
-    Ob("C06.7", "commitment contents: legacy blanking (shared with C04.3)", _C04.c04_3, floor=12, engines="DF,CT"),
+    Ob("C06.6", "commitment contents: BIP143 pre-image and sub-hash traces (shared with C04.2)", _C04.c04_2, floor=9, engines="SYM"),
+    Ob("C06.7", "commitment contents: legacy blanking (shared with C04.3)", _C04.c04_3, floor=7, engines="SYM"),
 ]
